@@ -443,6 +443,8 @@ pid_t getpid(void) { pid_t r = (pid_t) nondet_int(); __CPROVER_assume(r > 0); re
 void srand(unsigned s) { }
 int rand(void) { int r = nondet_int(); __CPROVER_assume(r >= 0 && r <= RAND_MAX); return r; }
 
+int v_msg(int unused, ...) { return 0; }   /* variadic, empty body: evaluates its arguments, nothing else */
+
 /* ======================================================================================
  * 5. string copy family with destination-size obligations (man-page semantics)
  *    Lengths come from env.h's strlen (SOME NUL position of the source; ASSUMES the source
@@ -484,7 +486,6 @@ char *strncpy(char *d, const char *s, size_t n)
  * on a pointer that may be "any string literal").  snprintf is therefore a macro: the format
  * arguments are still evaluated (v_fmt_args: variadic, empty body), the buffer effect is the
  * non-variadic v_snprintf. */
-int v_fmt_args(const char *fmt, ...) { return 0; }
 int v_snprintf(char *d, size_t size, int unused)
 {
     __CPROVER_assert(size == 0 || __CPROVER_w_ok(d, size), "snprintf: destination holds size bytes");
@@ -497,7 +498,24 @@ int v_snprintf(char *d, size_t size, int unused)
     return r;
 }
 #undef snprintf
-#define snprintf(d, size, ...) v_snprintf((char *) (d), (size), v_fmt_args(__VA_ARGS__))
+#define snprintf(d, size, fmt, ...) v_snprintf((char *) (d), (size), v_msg(0, ##__VA_ARGS__))
+
+/* ======================================================================================
+ * 5b. message functions without their format literals
+ *    env.h's stubs of libast_dprintf / libast_print_error / libast_print_warning /
+ *    libast_fatal_error / fprintf ignore every argument.  Every string literal is an addressable
+ *    object, conf.c has well over a hundred format strings in its D_CONF()/error calls, and
+ *    DFCC's bookkeeping arrays are indexed by object number: with more than 256 objects
+ *    (--object-bits 8) the SAT back end runs out of memory on them.  The calls are therefore
+ *    routed through macros that DROP THE FORMAT LITERAL and still evaluate every other argument
+ *    (so reads such as file_peek_path() stay in the verified text).
+ * ====================================================================================== */
+#define libast_dprintf(fmt, ...)        v_msg(0, ##__VA_ARGS__)
+#define libast_print_error(fmt, ...)    ((void) v_msg(0, ##__VA_ARGS__))
+#define libast_print_warning(fmt, ...)  ((void) v_msg(0, ##__VA_ARGS__))
+#define libast_fatal_error(fmt, ...)    do { v_msg(0, ##__VA_ARGS__); __CPROVER_assume(0); } while (0)
+#undef  fprintf
+#define fprintf(f, fmt, ...)            v_msg(0, ##__VA_ARGS__)
 
 /* ======================================================================================
  * 6. STATED RE-BINDINGS of conf.c macros (units that define VERIF_CONF_REBIND)
